@@ -7,8 +7,10 @@ package transrt
 
 import (
 	"encoding/hex"
+	"errors"
 	"fmt"
 	"path/filepath"
+	"regexp"
 	"strconv"
 	"strings"
 
@@ -125,6 +127,88 @@ func SwapMenu[T any](k int64) func([]T, int, int) {
 		return func(s []T, i, j int) {}
 	}
 	return func(s []T, i, j int) { s[i] = s[j] }
+}
+
+// SErr prints an error result: `nil`, or `err:` + the comma-separated positions of ALL classes
+// of the translated function that match it — a class that names a package-level error variable
+// matches by errors.Is, a format string by the regular expression made from it (every verb = `.*`).
+// The Lean side prints exactly one position; SameOut accepts it when it is in the set.
+func SErr(err error, classes []string, sentinels map[string]error) string {
+	if err == nil {
+		return "nil"
+	}
+	var hit []string
+	for i, c := range classes {
+		if sv, ok := sentinels[c]; ok {
+			if errors.Is(err, sv) {
+				hit = append(hit, strconv.Itoa(i))
+			}
+			continue
+		}
+		if formatRegexp(c).MatchString(err.Error()) {
+			hit = append(hit, strconv.Itoa(i))
+		}
+	}
+	if len(hit) == 0 {
+		return "err:?"
+	}
+	return "err:" + strings.Join(hit, ",")
+}
+
+var fmtRe = map[string]*regexp.Regexp{}
+var verbRe = regexp.MustCompile(`%(%|[-+# 0]*(\[\d+\])?[\d*]*(\.[\d*]*)?(\[\d+\])?[a-zA-Z])`)
+
+func formatRegexp(format string) *regexp.Regexp {
+	if r, ok := fmtRe[format]; ok {
+		return r
+	}
+	var b strings.Builder
+	b.WriteString("(?s)^")
+	last := 0
+	for _, m := range verbRe.FindAllStringIndex(format, -1) {
+		b.WriteString(regexp.QuoteMeta(format[last:m[0]]))
+		if format[m[0]:m[1]] == "%%" {
+			b.WriteString("%")
+		} else {
+			b.WriteString(".*")
+		}
+		last = m[1]
+	}
+	b.WriteString(regexp.QuoteMeta(format[last:]))
+	b.WriteString("$")
+	r := regexp.MustCompile(b.String())
+	fmtRe[format] = r
+	return r
+}
+
+// SameOut compares the output line of the real function with the one of the translated
+// definition token by token; an `err:` token of the real side is a set of class positions.
+func SameOut(impl, model string) bool {
+	if impl == model {
+		return true
+	}
+	a, b := strings.Fields(impl), strings.Fields(model)
+	if len(a) != len(b) {
+		return false
+	}
+	for i := range a {
+		if a[i] == b[i] {
+			continue
+		}
+		if !strings.HasPrefix(a[i], "err:") || !strings.HasPrefix(b[i], "err:") {
+			return false
+		}
+		found := false
+		for _, k := range strings.Split(a[i][4:], ",") {
+			if k == b[i][4:] {
+				found = true
+			}
+		}
+		if !found {
+			return false
+		}
+	}
+	return true
 }
 
 // Source64 is a math/rand Source64 that always delivers the word k (extern `r.Uint64()`).
@@ -299,6 +383,15 @@ func Extra(id string) *core.Extra {
 						bi = 100000
 					}
 					args[j] = genArg(ctx.Rand, k, bi)
+					if j < len(tg.ArgMin) && tg.ArgMin[j] != nil {
+						if w, err := strconv.ParseInt(args[j], 10, 64); err == nil && w < *tg.ArgMin[j] {
+							span := uint64(1001)
+							if j < len(tg.Limits) && tg.Limits[j] > 0 {
+								span = tg.Limits[j] + 1
+							}
+							args[j] = SInt(*tg.ArgMin[j] + int64(uint64(-(w+1))%span))
+						}
+					}
 					if j < len(tg.Limits) && tg.Limits[j] > 0 {
 						if v, err := strconv.ParseUint(args[j], 10, 64); err == nil && v > tg.Limits[j] {
 							args[j] = SUint(v % (tg.Limits[j] + 1))
@@ -324,7 +417,7 @@ func Extra(id string) *core.Extra {
 			evals += n
 			bad := 0
 			for i := range lines {
-				if impl[i] != model[0][i] {
+				if !SameOut(impl[i], model[0][i]) {
 					bad++
 					if bad == 1 {
 						fails = append(fails, core.ExtraFailure{
